@@ -46,6 +46,8 @@ type Event struct {
 	Key      string
 	Err      string
 	Data     []byte // write: bytes reported as sent; read: body copy
+	Raw      []byte // read: copy of ExtensionFields.TerminalData at callback time
+	Sum, No  uint16
 	Complete bool
 	Active   bool
 	Msg      *service.Message // read: live pointer (re-read later by the C09 monitor)
@@ -148,6 +150,10 @@ func (r *Recorder) OnReadExecutionEvent(m *service.Message) {
 	}
 	if r.KeepMsg {
 		e.Msg = m
+		e.Raw = bytes.Clone(m.ExtensionFields.TerminalData)
+		if m.JTMessage != nil && m.JTMessage.Header != nil {
+			e.Sum, e.No = m.JTMessage.Header.SubPackageSum, m.JTMessage.Header.SubPackageNo
+		}
 	}
 	if r.Hold != nil {
 		r.Hold(&e)
